@@ -44,6 +44,25 @@ func (fr *Frame) exec(in ssa.Instruction, st *State) error {
 		if !isAtom(v.S) {
 			v = c.sc.define("st", v)
 		}
+		if g, ok := x.Addr.(*ssa.Global); ok && fr.con != nil && len(fr.con.Sinks) > 0 {
+			// assignments to package-level variables: `call store.<Name> #n requires E`, arg(1) = value
+			fr.pseudoSinkKind("store."+g.Name(), x, []TV{{T: Term{"nil_ref", SRef}, Ty: x.Addr.Type()}, {T: v, Ty: x.Val.Type()}}, st)
+		}
+		if fa, ok := x.Addr.(*ssa.FieldAddr); ok && fr.con != nil && len(fr.con.Sinks) > 0 {
+			// field assignments are addressable as sinks: `call store.<field> #n requires E` with
+			// arg(0) = the struct pointer, arg(1) = the value stored
+			if stT, ok := fa.X.Type().Underlying().(*types.Pointer).Elem().Underlying().(*types.Struct); ok {
+				kind := "store." + stT.Field(fa.Field).Name()
+				base := fr.val(fa.X, st)
+				var bt Term
+				if len(base.T) == 1 {
+					bt = base.T[0]
+				} else {
+					bt = Term{"nil_ref", SRef}
+				}
+				fr.pseudoSinkKind(kind, x, []TV{{T: bt, Ty: fa.X.Type()}, {T: v, Ty: x.Val.Type()}}, st)
+			}
+		}
 		fr.write(l, st, v)
 		if l.kind == rkLocal && len(l.path) == 0 {
 			if fr.cellClo == nil {
@@ -144,7 +163,11 @@ func (fr *Frame) exec(in ssa.Instruction, st *State) error {
 		s := fr.term(x.X, st)
 		n := x.Type().(*types.Pointer).Elem().Underlying().(*types.Array).Len()
 		fr.safetyOb("slice-to-array", "", c.le(c.sc.idxLit(n), c.slLen(s)), x.Pos(), "slice to array pointer conversion: length suffices")
-		fr.setVal(x, c.sc.fresh("s2a", SRef))
+		r := c.sc.fresh("s2a", SRef)
+		if n > 0 {
+			c.assumeG(not(eq(r, Term{"nil_ref", SRef})))
+		}
+		fr.setVal(x, r)
 		c.unmodelled["SliceToArrayPointer result contents"] = true
 		return nil
 	case *ssa.MakeSlice:
@@ -466,6 +489,33 @@ func (c *FuncCtx) valEq(a, b Term, t types.Type) Term {
 			return eq(ifTag(b), Term{"0", SInt})
 		}
 	}
+	return c.goEq(a, b, t)
+}
+
+// goEq: Go's == on arrays and structs compares elements / fields in range only (SMT array
+// equality would also compare the unused indices).
+func (c *FuncCtx) goEq(a, b Term, t types.Type) Term {
+	switch u := t.Underlying().(type) {
+	case *types.Array:
+		es := c.sortOf(u.Elem())
+		if u.Len() <= 64 {
+			var parts []Term
+			for i := int64(0); i < u.Len(); i++ {
+				ix := c.sc.idxLit(i)
+				parts = append(parts, c.goEq(sel(a, ix, es), sel(b, ix, es), u.Elem()))
+			}
+			return and(parts...)
+		}
+		j := Term{"jeq", c.sc.idxSort()}
+		body := implies(and(c.le(c.sc.idxLit(0), j), c.lt(j, c.sc.idxLit(u.Len()))), c.goEq(sel(a, j, es), sel(b, j, es), u.Elem()))
+		return Term{fmt.Sprintf("(forall ((jeq %s)) %s)", c.sc.idxSort(), body.S), SBool}
+	case *types.Struct:
+		var parts []Term
+		for i := 0; i < u.NumFields(); i++ {
+			parts = append(parts, c.goEq(c.fieldSel(a, t, i), c.fieldSel(b, t, i), u.Field(i).Type()))
+		}
+		return and(parts...)
+	}
 	return eq(a, b)
 }
 
@@ -729,6 +779,9 @@ func (fr *Frame) execTypeAssert(x *ssa.TypeAssert, st *State) error {
 		tag := c.typeTag(x.AssertedType)
 		ok = eq(ifTag(v), Term{fmt.Sprintf("%d", tag), SInt})
 		res = c.unbox(ifVal(v), c.sortOf(x.AssertedType))
+		// a value of that dynamic type is the boxing of its payload
+		bx := "box_" + sortTag(c.sortOf(x.AssertedType))
+		c.sc.assume(implies(ok, eq(mk(SAny, bx, res), ifVal(v))))
 	}
 	ok = c.sc.define("taok", ok)
 	if x.CommaOk {
@@ -855,6 +908,76 @@ func (fr *Frame) execNext(x *ssa.Next, st *State) error {
 
 // pseudoSink: map updates are addressable as sinks in contracts: `call mapupdate #n requires E`
 // with arg(0) = map, arg(1) = key, arg(2) = value; ordinals count in source order.
+// pseudoSinkKind: like pseudoSink for kinds whose ordinals are counted per kind (field stores).
+func (fr *Frame) pseudoSinkKind(kind string, in ssa.Instruction, args []TV, st *State) {
+	c := fr.c
+	if fr.kindOrd == nil {
+		fr.kindOrd = map[string]map[ssa.Instruction]int{}
+	}
+	if fr.kindOrd[kind] == nil {
+		m := map[ssa.Instruction]int{}
+		type rec struct {
+			in  ssa.Instruction
+			pos token.Pos
+			bi  int
+			ii  int
+		}
+		var recs []rec
+		for _, b := range fr.fn.Blocks {
+			for ii, i2 := range b.Instrs {
+				s2, ok := i2.(*ssa.Store)
+				if !ok {
+					continue
+				}
+				if g, ok := s2.Addr.(*ssa.Global); ok {
+					if "store."+g.Name() == kind {
+						recs = append(recs, rec{i2, i2.Pos(), b.Index, ii})
+					}
+					continue
+				}
+				fa, ok := s2.Addr.(*ssa.FieldAddr)
+				if !ok {
+					continue
+				}
+				stT, ok := fa.X.Type().Underlying().(*types.Pointer).Elem().Underlying().(*types.Struct)
+				if ok && "store."+stT.Field(fa.Field).Name() == kind {
+					recs = append(recs, rec{i2, i2.Pos(), b.Index, ii})
+				}
+			}
+		}
+		sort.SliceStable(recs, func(i, j int) bool {
+			if recs[i].pos != recs[j].pos && recs[i].pos.IsValid() && recs[j].pos.IsValid() {
+				return recs[i].pos < recs[j].pos
+			}
+			if recs[i].bi != recs[j].bi {
+				return recs[i].bi < recs[j].bi
+			}
+			return recs[i].ii < recs[j].ii
+		})
+		for i, r := range recs {
+			m[r.in] = i + 1
+		}
+		fr.kindOrd[kind] = m
+	}
+	ord := fr.kindOrd[kind][in]
+	ev := &Event{did: fr.reach, block: fr.curBlock, key: kind, ord: ord, args: args}
+	fr.events[fmt.Sprintf("%s#%d", kind, ord)] = ev
+	for i, cl := range fr.con.Sinks {
+		if normKey(cl.Callee) != kind || (cl.Ord != 0 && cl.Ord != ord) {
+			continue
+		}
+		cl.matched = true
+		ec := fr.evalCtx(st, fr.entry, in.Pos())
+		ec.thisCall = ev
+		t, err := ec.evalClause(cl.Expr)
+		if err != nil {
+			c.stale = append(c.stale, fmt.Sprintf("%s:%d: %v", cl.File, cl.Line, err))
+			continue
+		}
+		fr.oblige("sink", fmt.Sprintf("%s/%s", kind, clauseLabel(cl, i)), implies(fr.reach, t), in.Pos(), "before "+kind+": "+oneLine(cl.Text))
+	}
+}
+
 func (fr *Frame) pseudoSink(kind string, in ssa.Instruction, args []TV, st *State) {
 	c := fr.c
 	if fr.con == nil {
